@@ -4752,3 +4752,62 @@ func c02R13(c *Ctx, r *Report) {
 	r.Check(ok, rule, fn.Name(), "signed rem guards the divisor -1", c.pos(fn.Decl.Pos()),
 		"`rem` is emitted with the operands as they are: `fn rem(a: i32, b: i32) -> i32 { return a % b; }` called with (-2147483648, -1) dies with SIGFPE natively and yields 0 on wasm")
 }
+
+// ---- C02.R14: the wasm heap grows ---------------------------------------------------------------------------------
+
+func init() {
+	lateInits = append(lateInits, func() {
+		props["C02"].Quick = append(props["C02"].Quick, c02R14)
+		props["C02"].Explanation += " (R14) the allocator of the JavaScript runtime (text lint, nothing here parses JavaScript: the body of `function ferret_alloc` is cut out by brace matching) calls memory.grow, and the wasm module declares its memory without a maximum (limits flag 0x00), so a program that allocates more than the initial pages keeps running as it does natively."
+	})
+}
+
+func c02R14(c *Ctx, r *Report) {
+	const rule = "C02.R14"
+	r.Describe(rule, "runtime/wasm/runtime.js: the body of function ferret_alloc contains a call memory.grow(…) guarded by a comparison with memory.buffer.byteLength; codegen/wasm encodeLimits starts the limits with the byte 0x00 (no maximum)")
+	data, err := os.ReadFile(filepath.Join(c.RepoDir, "runtime", "wasm", "runtime.js"))
+	if !r.Anchor(rule, err == nil, "runtime/wasm/runtime.js") {
+		return
+	}
+	src := string(data)
+	i := strings.Index(src, "function ferret_alloc(")
+	if !r.Anchor(rule, i >= 0, "runtime.js: function ferret_alloc") {
+		return
+	}
+	j := strings.Index(src[i:], "{")
+	depth, end := 0, -1
+	for k := i + j; k < len(src); k++ {
+		switch src[k] {
+		case '{':
+			depth++
+		case '}':
+			depth--
+			if depth == 0 {
+				end = k
+			}
+		}
+		if end >= 0 {
+			break
+		}
+	}
+	if !r.Anchor(rule, end > 0, "runtime.js: body of ferret_alloc") {
+		return
+	}
+	body := src[i+j : end]
+	line := 1 + strings.Count(src[:i], "\n")
+	r.Check(strings.Contains(body, "memory.grow(") && strings.Contains(body, "byteLength"), rule, "runtime.js:ferret_alloc", "the heap grows when it reaches the end of the memory", fmt.Sprintf("runtime/wasm/runtime.js:%d", line),
+		"the allocator only advances a pointer: a loop that declares a variable 20000 times, or 50000 appends, runs natively and traps on wasm (\"memory access out of bounds\") once the first page is used up")
+	el := c.LookupFn(pkgWasm, "encodeLimits")
+	if r.Anchor(rule, el != nil, "wasm.encodeLimits") {
+		noMax := false
+		ast.Inspect(el.Decl.Body, func(x ast.Node) bool {
+			if cl, ok := x.(*ast.CompositeLit); ok && len(cl.Elts) >= 1 {
+				if v := constOf(el.Info(), cl.Elts[0]); v != nil && intVal(v) == 0 {
+					noMax = true
+				}
+			}
+			return true
+		})
+		r.Check(noMax, rule, el.Name(), "memory limits have no maximum", c.pos(el.Decl.Pos()), "the memory is declared with a maximum (or the flag is not 0x00): memory.grow beyond it fails")
+	}
+}
